@@ -83,7 +83,8 @@ func ZZ_C45_DerivedStaticType_SemaRoundTrip() {
 	size := zzNondetInt64()
 	zzAssume(size >= 0)
 	var t StaticType
-	switch zzChoice(7) {
+	k := zzChoice(8)
+	switch k {
 	case 0:
 		t = NewOptionalStaticType(nil, p)
 	case 1:
@@ -96,6 +97,8 @@ func ZZ_C45_DerivedStaticType_SemaRoundTrip() {
 		t = NewReferenceStaticType(nil, UnauthorizedAccess, p)
 	case 5:
 		t = NewCapabilityStaticType(nil, p)
+	case 7:
+		t = NewReferenceStaticType(nil, InaccessibleAccess, p)
 	default:
 		t = NewOptionalStaticType(nil, NewVariableSizedStaticType(nil, p))
 	}
@@ -123,5 +126,8 @@ func ZZ_C45_DerivedStaticType_SemaRoundTrip() {
 		return
 	}
 	zzAssert("round-trip-equal", back != nil && back.Equal(t) && t.Equal(back))
-	zzAssert("same-type-id", string(t.ID()) == string(st.ID()))
+	if k != 7 {
+		// (a reference with inaccessible authorization has no type ID: ID() raises an unexpected error by design)
+		zzAssert("same-type-id", string(t.ID()) == string(st.ID()))
+	}
 }
